@@ -1,6 +1,7 @@
 import Cirbo.Proofs.GenMul
 import Cirbo.Proofs.GenLevels
 import Cirbo.Proofs.GenDadda
+import Cirbo.Proofs.GenKara
 /-!
 # C08 — Multiplier and squarer generators compute exact products
 
@@ -11,7 +12,10 @@ import Cirbo.Proofs.GenDadda
 -- OBLIGATION: c08_mul_default
 -- OBLIGATION: c08_weighted_levels_positional
 -- OBLIGATION: c08_mul_dadda
--- PARTIAL: proved: the frame theorem for every mode (all are Prog programs), the partial-product matrix (sum_i 2^i*row_i = a*b), add_mul_alter = a*b exactly (positional), add_mul (DEFAULT) = a*b exactly (positional: on gapless weights the weighted sum returns the levels 0,1,2,... in order); only its result width n+m is not proved; add_mul_dadda = a*b exactly with its result width (all reduction stages, any operand widths, both endiannesses). Karatsuba (both variants, all recursion thresholds), Wallace, 2^k-1 mode and both squarers are modelled one-to-one (Model/Gen3.lean) and compared gate for gate with the code on every run (widths up to 40x40, 48..56 for the squarer split), and the search checks values exhaustively/densely and the result widths on the real generators; their value theorems are not proved yet.
+-- OBLIGATION: c08_mul_karatsuba
+-- OBLIGATION: c08_mul_karatsuba_pow2
+-- OBLIGATION: c08_mul_pow2_m1
+-- PARTIAL: proved: the frame theorem for every mode (all are Prog programs), the partial-product matrix (sum_i 2^i*row_i = a*b), add_mul_alter = a*b exactly (positional), add_mul (DEFAULT) = a*b exactly (positional: on gapless weights the weighted sum returns the levels 0,1,2,... in order); only its result width n+m is not proved; add_mul_dadda = a*b exactly with its result width (all reduction stages, any operand widths, both endiannesses). both Karatsuba variants (add_mul_karatsuba_with_efficient_sum = MulMode.KARATSUBA, and add_mul_karatsuba over add_mul_pow2_m1) = a*b exactly with their result width, by induction over the recursion (every threshold, operands of different widths, zero padding, the subtraction never borrows); add_mul_pow2_m1 = a*b exactly with its width (column-loop invariant over add_sum_pow2_m1, anti-diagonal re-summation of the partial-product matrix). Wallace and both squarers: are modelled one-to-one (Model/Gen3.lean) and compared gate for gate with the code on every run (widths up to 40x40, 48..56 for the squarer split), and the search checks values exhaustively/densely and the result widths on the real generators; their value theorems are not proved yet.
 -/
 namespace Cirbo
 
@@ -85,6 +89,47 @@ theorem c08_mul_dadda {st st' : GSt} {x y out : List Label} {be : Bool}
   rw [sem_addMulDadda h3, valLE_congr (fun l hl => h2 l (hx l (mem_revIf.mp hl))),
     valLE_congr (fun l hl => h2 l (hy l (mem_revIf.mp hl)))]
 
+/-- **`add_mul_karatsuba_with_efficient_sum` (MulMode.KARATSUBA)** on arbitrary host gates (any
+widths, not both empty; either endianness): the result is exactly `a·b`, on `n+m` bits (`n+m-1`
+when one operand has a single bit) -/
+theorem c08_mul_karatsuba {st st' : GSt} {x y out : List Label} {be : Bool}
+    (h : (addMulKaratsubaEff x y be).run st = .ok (out, st')) (hw : WFS st.c) (hne : 1 ≤ max x.length y.length)
+    (hx : ∀ l ∈ x, l ∈ st.c.labels) (hy : ∀ l ∈ y, l ∈ st.c.labels) {b v : Label → Bool} (hv : IsValB st.c b v) :
+    ∃ v', IsValB st'.c b v' ∧ (∀ l ∈ st.c.labels, v' l = v l) ∧
+      valLE v' (revIf out be) = valLE v (revIf x be) * valLE v (revIf y be) ∧
+      out.length = x.length + y.length - (if x.length == 1 || y.length == 1 then 1 else 0) := by
+  obtain ⟨v', h1, h2, h3⟩ := run_total h hw hv
+  obtain ⟨e1, e2⟩ := sem_addMulKaratsubaEff h3 hne
+  refine ⟨v', h1, h2, ?_, e2⟩
+  rw [e1, valLE_congr (fun l hl => h2 l (hx l (mem_revIf.mp hl))),
+    valLE_congr (fun l hl => h2 l (hy l (mem_revIf.mp hl)))]
+
+/-- **`add_mul_karatsuba`** (base multiplier `add_mul_pow2_m1`), same statement -/
+theorem c08_mul_karatsuba_pow2 {st st' : GSt} {x y out : List Label} {be : Bool}
+    (h : (addMulKaratsuba x y be).run st = .ok (out, st')) (hw : WFS st.c) (hne : 1 ≤ max x.length y.length)
+    (hx : ∀ l ∈ x, l ∈ st.c.labels) (hy : ∀ l ∈ y, l ∈ st.c.labels) {b v : Label → Bool} (hv : IsValB st.c b v) :
+    ∃ v', IsValB st'.c b v' ∧ (∀ l ∈ st.c.labels, v' l = v l) ∧
+      valLE v' (revIf out be) = valLE v (revIf x be) * valLE v (revIf y be) ∧
+      out.length = x.length + y.length - (if x.length == 1 || y.length == 1 then 1 else 0) := by
+  obtain ⟨v', h1, h2, h3⟩ := run_total h hw hv
+  obtain ⟨e1, e2⟩ := sem_addMulKaratsuba h3 hne
+  refine ⟨v', h1, h2, ?_, e2⟩
+  rw [e1, valLE_congr (fun l hl => h2 l (hx l (mem_revIf.mp hl))),
+    valLE_congr (fun l hl => h2 l (hy l (mem_revIf.mp hl)))]
+
+/-- **`add_mul_pow2_m1`** on arbitrary host gates, any widths, either endianness: exactly `a·b` -/
+theorem c08_mul_pow2_m1 {st st' : GSt} {x y out : List Label} {be : Bool}
+    (h : (addMulPow2M1 x y be).run st = .ok (out, st')) (hw : WFS st.c)
+    (hx : ∀ l ∈ x, l ∈ st.c.labels) (hy : ∀ l ∈ y, l ∈ st.c.labels) {b v : Label → Bool} (hv : IsValB st.c b v) :
+    ∃ v', IsValB st'.c b v' ∧ (∀ l ∈ st.c.labels, v' l = v l) ∧
+      valLE v' (revIf out be) = valLE v (revIf x be) * valLE v (revIf y be) ∧
+      out.length = (if x.length = 1 then y.length else if y.length = 1 then x.length else x.length + y.length) := by
+  obtain ⟨v', h1, h2, h3⟩ := run_total h hw hv
+  obtain ⟨e1, e2⟩ := sem_addMulPow2M1 h3
+  refine ⟨v', h1, h2, ?_, e2⟩
+  rw [e1, valLE_congr (fun l hl => h2 l (hx l (mem_revIf.mp hl))),
+    valLE_congr (fun l hl => h2 l (hy l (mem_revIf.mp hl)))]
+
 #print axioms c08_generators_only_add_fresh_gates
 #print axioms c08_partial_products
 #print axioms c08_mul_alter
@@ -92,5 +137,8 @@ theorem c08_mul_dadda {st st' : GSt} {x y out : List Label} {be : Bool}
 #print axioms c08_mul_default
 #print axioms c08_weighted_levels_positional
 #print axioms c08_mul_dadda
+#print axioms c08_mul_karatsuba
+#print axioms c08_mul_karatsuba_pow2
+#print axioms c08_mul_pow2_m1
 
 end Cirbo
